@@ -88,6 +88,7 @@ PROPS['C11'] = {
 }
 
 SCANNER_TRUST = ['input model: Input::rem()/avail()/buffered()/cap() are ghost methods of the trait; every implementation must define them and is verified (or, for the byte-indexed StrInput overrides and the two indexing one-liners of BufferedInput, assumed - see functions_not_under_contract) against the same clauses',
+                 'ASSUMED (A8, UTF-8): while all bytes in front of position k of a str are ASCII, the first k characters are those bytes, the string ends where the bytes end, and byte k is character k or the lead byte of a non-ASCII character k (axiom_utf8_ascii_prefix); slicing / strip_prefix at such a position drops that many characters (verif_str_from via rewrite R12, str::strip_prefix)',
                  'ASSUMED (A7) for BufferedInput: the character source is a deterministic, fused, finite iterator (its future output is a function of its state); rewrite R11 routes its three next() calls through a helper carrying that contract, because Verus specifies Iterator::next through prophetic values, which cannot appear in decreases clauses',
                  'scanner functions not yet under contract are external_body: their callers learn nothing about them',
                  'ASSUMED (A6): #[derive(Clone)] of SimpleKey copies every field - one assume() after the clone in fetch_value (derived code inside the crate cannot carry a contract)',
@@ -105,10 +106,11 @@ PROPS['C04'] = {
 }
 PROPS['C10'] = {
     'units': ['parser'],
+    'extra': ['kengine'],
     'level': 'proof',
-    'claim': 'One abstract Input contract (remaining characters, peek entitlement, buffer count, capacity) is the single specification: all provided methods of the trait are verified against it from the required ones (including skip_ws_to_eol against ws_eol_spec and the counting loops against prefix-length spec functions, counts in characters); the StrInput char-iterator methods (lookahead, buflen, bufmaxlen, buf_is_empty, raw_read_ch, raw_read_non_breakz_ch, skip, skip_n, peek, peek_nth, look_ch, next_char_is, nth_char_is, next_2_are, next_3_are, skip_while_non_breakz, split_first_char) are verified against the same clauses. BufferedInput (the back end behind load_from_str / load_from_iter) is verified against the same clauses with the model rem() = (look-ahead buffer ++ what the iterator will still deliver) modulo trailing NULs: lookahead (incl. the NUL padding of an exhausted source), buflen, bufmaxlen, raw_read_ch, raw_read_non_breakz_ch, skip, skip_n. The scanner and parser are verified against the abstract contract only, so they behave identically on every conforming back end.',
+    'claim': 'One abstract Input contract (remaining characters, peek entitlement, buffer count, capacity) is the single specification: all provided methods of the trait are verified against it from the required ones (including skip_ws_to_eol against ws_eol_spec and the counting loops against prefix-length spec functions, counts in characters); the StrInput char-iterator methods (lookahead, buflen, bufmaxlen, buf_is_empty, raw_read_ch, raw_read_non_breakz_ch, skip, skip_n, peek, peek_nth, look_ch, next_char_is, nth_char_is, next_2_are, next_3_are, skip_while_non_breakz, split_first_char) are verified against the same clauses; its byte-indexed overrides (the nine next_is_* predicates, next_is_document_start / end / indicator, next_can_be_plain_scalar, skip_while_blank, skip_ws_to_eol) are verified against the same clauses under the assumed UTF-8 facts A8 and, BOUNDED (Kani, strings of at most 2-6 bytes), shown equal to the provided default methods without A8. BufferedInput (the back end behind load_from_str / load_from_iter) is verified against the same clauses with the model rem() = (look-ahead buffer ++ what the iterator will still deliver) modulo trailing NULs: lookahead (incl. the NUL padding of an exhausted source), buflen, bufmaxlen, raw_read_ch, raw_read_non_breakz_ch, skip, skip_n. The scanner and parser are verified against the abstract contract only, so they behave identically on every conforming back end.',
     'technique': 'Verus: trait-level contract; default methods and StrInput overrides verified against the same postconditions',
-    'not_decided': ['byte-indexed StrInput overrides (next_is_document_*, next_can_be_plain_scalar, next_is_*, skip_ws_to_eol, skip_while_blank, fetch_while_is_alpha) are assumed to meet the contract in this unit (Kani differential tier)', 'BufferedInput::peek / peek_nth (self.buffer[n]: arraydeque Index cannot carry a contract) are assumed to return the n-th buffered character', 'the two-run theorem "same events, spans, error" is the conjunction of these per-method facts with the determinism of the scanner; it is not mechanised'],
+    'not_decided': ['StrInput::fetch_while_is_alpha (pointer arithmetic on as_ptr()) is assumed to meet the contract', 'the other byte-indexed StrInput overrides are verified under the ASSUMED UTF-8 facts A8 (axiom_utf8_ascii_prefix, verif_str_from, strip_prefix) and, independently of A8 but BOUNDED, compared with the default trait methods by the Kani harnesses c10_str_*', 'BufferedInput::peek / peek_nth (self.buffer[n]: arraydeque Index cannot carry a contract) are assumed to return the n-th buffered character', 'the two-run theorem "same events, spans, error" is the conjunction of these per-method facts with the determinism of the scanner; it is not mechanised'],
     'trust': SCANNER_TRUST,
 }
 PROPS['C12'] = {
